@@ -46,7 +46,8 @@ type NodeSpec struct {
 	Parent int      `json:"parent"` // index of the parent node; node 0 is the genesis block
 	Diff   int64    `json:"diff"`
 	Txs    []TxSpec `json:"txs,omitempty"`
-	Valid  bool     `json:"valid"` // false: header.GasUsed is off by one (fails ValidateState)
+	Valid  bool     `json:"valid"`         // false: header.GasUsed is off by one (fails ValidateState)
+	Fan    int      `json:"fan,omitempty"` // additionally: a contract creation whose init code writes this many storage slots (a big state change: one trie commit spans several batch flushes)
 }
 
 type OpSpec struct {
@@ -123,6 +124,11 @@ func NewGspec() *core.Genesis {
 func BuildTree(c *vh.Ctx, spec []NodeSpec) *Tree {
 	t := &Tree{Spec: spec, Gspec: NewGspec(), Engine: NewDiffEngine(), ByHash: map[common.Hash]int{}}
 	t.Config = t.Gspec.Config
+	for _, sp := range spec {
+		if sp.Fan > 0 {
+			t.Gspec.GasLimit = 400000000 // room for thousands of SSTOREs in one transaction
+		}
+	}
 	t.Ids = &Ids{Block: map[common.Hash]int{}, Root: map[common.Hash]int{}, Tx: map[common.Hash]int{}}
 	gendb := aquadb.NewMemDatabase()
 	genesis := t.Gspec.MustCommit(gendb)
@@ -157,6 +163,18 @@ func BuildTree(c *vh.Ctx, spec []NodeSpec) *Tree {
 				key, _ := crypto.HexToBtcec(keyHex[ts.Acct%len(keyHex)])
 				from := crypto.PubkeyToAddress(key.PubKey())
 				tx, err := types.SignTx(types.NewTransaction(g.TxNonce(from), dest, big.NewInt(int64(1000+ts.Variant)), params.TxGas, nil, nil), signer, key)
+				if err != nil {
+					c.Fatal("sign: %v", err)
+				}
+				g.AddTx(tx)
+			}
+			if sp.Fan > 0 {
+				// one contract creation whose init code stores Fan slots:
+				//   PUSH2 n; JUMPDEST; DUP1; DUP1; SSTORE; PUSH1 1; SWAP1; SUB; DUP1; PUSH1 3; JUMPI; STOP
+				key, _ := crypto.HexToBtcec(keyHex[0])
+				from := crypto.PubkeyToAddress(key.PubKey())
+				code := []byte{0x61, byte(sp.Fan >> 8), byte(sp.Fan), 0x5b, 0x80, 0x80, 0x55, 0x60, 0x01, 0x90, 0x03, 0x80, 0x60, 0x03, 0x57, 0x00}
+				tx, err := types.SignTx(types.NewContractCreation(g.TxNonce(from), big.NewInt(0), uint64(sp.Fan)*21000+200000, nil, code), signer, key)
 				if err != nil {
 					c.Fatal("sign: %v", err)
 				}
